@@ -36,11 +36,14 @@ import (
 	"verifharness/internal/vf"
 )
 
-const rule = "each case = one generated tar (gen.RandomTar over the whole supported domain + one forced multi-chunk file) built with a drawn option set; " +
+const rule = "stages plain/race: each case = one generated tar (gen.RandomTar over the whole supported domain + one forced multi-chunk file) built by estargz.Build with a drawn option set; " +
 	"each case is served through 4 environments (2 metadata stores x 2 drawn cache/registry configurations) and walked by 4-16 concurrent seeded walkers interleaved with " +
 	"Prefetch / BackgroundFetch / prioritized-task pairs / cache-file eviction (and, in a third of the environments, a registry-outage phase followed by a healthy phase). " +
 	"An environment is non-trivial iff >=2 walkers completed, >=1 lookup, >=1 directory listing and >=1 read whose byte range crosses a build-chunk boundary were compared with the model, " +
-	"and the registry served >=1 ranged GET of the layer blob (nothing was pre-loaded); distinct by (stage, case index, store, configuration)."
+	"and the registry served >=1 ranged GET of the layer blob (nothing was pre-loaded); distinct by (stage, case index, store, configuration). " +
+	"Stage probes: hand-minimised archives (explicit root entry, several chunks per gzip stream, empty prioritized file, passthrough merge buffers) through the same environment code. " +
+	"Stage dbgrowth: the nodes of one mounted layer are re-judged after each of 12 further layers was resolved through the same resolver (one bolt file); non-trivial iff >=5 kept nodes and >=1 xattr value were compared. " +
+	"Stage l3 (if /dev/fuse works): fs.NewFilesystem(...).Mount, then lstat/readdir/readlink/lgetxattr/pread system calls from 3-6 goroutines; non-trivial iff lstat, readdir and a chunk-crossing pread were compared."
 
 // Race attribution (DESIGN.md C02 + task statement).
 var attribution = []string{"fs/reader.", "fs/remote.", "cache.", "fs/layer.(*node)", "fs/layer.(*file)"}
@@ -48,7 +51,7 @@ var attribution = []string{"fs/reader.", "fs/remote.", "cache.", "fs/layer.(*nod
 func main() {
 	logrus.SetLevel(logrus.PanicLevel)
 	log.L.Logger.SetLevel(logrus.PanicLevel)
-	vf.Main("C02", "exploration", rule, 12, 120, body)
+	vf.Main("C02", "exploration", rule, 20, 90, body)
 }
 
 func body(r *vf.Run) {
@@ -59,6 +62,10 @@ func body(r *vf.Run) {
 		childBatch(r)
 	case "dbgrowth":
 		dbGrowthStage(r)
+	case "l3":
+		l3Stage(r)
+	case "probes":
+		probesStage(r)
 	default:
 		r.Inconclusive("unknown stage " + r.Child)
 	}
@@ -76,8 +83,8 @@ type stagePlan struct {
 
 func top(r *vf.Run) {
 	plans := []stagePlan{
-		{stage: "plain", cases: r.N(12, 150), ops: r.N(2000, 20000), maxG: r.N(8, 16), timeout: time.Duration(r.N(10, 40)) * time.Minute},
-		{stage: "race", race: true, cases: r.N(6, 40), ops: r.N(500, 3000), maxG: r.N(6, 12), timeout: time.Duration(r.N(10, 40)) * time.Minute},
+		{stage: "plain", cases: r.N(12, 50), ops: r.N(2000, 8000), maxG: r.N(8, 16), timeout: time.Duration(r.N(15, 50)) * time.Minute},
+		{stage: "race", race: true, cases: r.N(6, 16), ops: r.N(500, 2000), maxG: r.N(6, 10), timeout: time.Duration(r.N(15, 50)) * time.Minute},
 	}
 	if v := os.Getenv("C02_ONLY"); v != "" { // debugging aid: C02_ONLY=plain|race
 		var keep []stagePlan
@@ -94,6 +101,20 @@ func top(r *vf.Run) {
 		go func() {
 			defer wg.Done()
 			runDBGrowth(r)
+		}()
+	}
+	if v := os.Getenv("C02_ONLY"); v == "" || v == "probes" {
+		wg.Add(1)
+		go func() {
+			defer wg.Done()
+			runProbes(r)
+		}()
+	}
+	if v := os.Getenv("C02_ONLY"); v == "" || v == "l3" {
+		wg.Add(1)
+		go func() {
+			defer wg.Done()
+			runL3(r)
 		}()
 	}
 	for _, p := range plans {
